@@ -1002,10 +1002,163 @@ def rule_one_table(model):
     return r
 
 
+class _NPS(BaseState):
+    def __init__(self, env=None):
+        self.env = dict(env or {})
+
+    def key(self):
+        return tuple(sorted(self.env.items()))
+
+    def copy(self):
+        n = _NPS(self.env)
+        n.trace = self.trace
+        return n
+
+
+class _NameParamDomain(Domain):
+    """name_param for one combination of attributes: unnamed in (None,
+    'plain', 'quoted'), the name attribute given or not, expr= given or
+    not, the tag supporting expr or not."""
+
+    def __init__(self, fi, unnamed, has_attr, has_expr, flag):
+        ps = fi.params()
+        self.params = ps[0]
+        self.flag = 'expr' if 'expr' in ps else None
+        self.attr = 'attr' if 'attr' in ps else None
+        self.sc = (unnamed, has_attr, has_expr, flag)
+        self.exits = []
+
+    def truth(self, e, st):
+        unnamed, has_attr, has_expr, flag = self.sc
+        if isinstance(e, ast.Name):
+            if e.id in st.env:
+                return st.env[e.id]
+            if e.id == self.flag:
+                return flag
+            return None
+        if isinstance(e, ast.Compare) and len(e.ops) == 1:
+            l, op, r_ = e.left, e.ops[0], e.comparators[0]
+            if isinstance(op, (ast.In, ast.NotIn)) and \
+                    norm(r_) == self.params:
+                v = None
+                if isinstance(l, ast.Constant) and l.value == '':
+                    v = unnamed is not None
+                elif isinstance(l, ast.Constant) and l.value == 'expr':
+                    v = has_expr
+                elif isinstance(l, ast.Name) and l.id == self.attr:
+                    v = has_attr
+                if v is not None:
+                    return v if isinstance(op, ast.In) else not v
+            # the tests that recognise "..." around the unnamed value
+            if isinstance(r_, ast.Constant) and r_.value == '"' and \
+                    isinstance(op, (ast.Eq, ast.NotEq)):
+                v = unnamed == 'quoted'
+                return v if isinstance(op, ast.Eq) else not v
+            if isinstance(l, ast.Call) and norm(l.func) == 'len' and \
+                    isinstance(op, (ast.Gt, ast.GtE)):
+                return True
+        if isinstance(e, ast.Call) and isinstance(e.func, ast.Attribute) \
+                and e.func.attr in ('startswith', 'endswith') and e.args \
+                and isinstance(e.args[0], ast.Constant) and \
+                e.args[0].value == '"':
+            return unnamed == 'quoted'
+        return None
+
+    def branch(self, test, st):
+        v = self.truth(test, st)
+        if v is None:
+            return [(True, st), (False, st)]
+        return [(v, st)]
+
+    def raises(self, node, st):
+        return []
+
+    def effects(self, stmt, st):
+        if isinstance(stmt, ast.Assign) and len(stmt.targets) == 1 and \
+                isinstance(stmt.targets[0], ast.Name):
+            st = st.copy()
+            v = None
+            if isinstance(stmt.value, (ast.BoolOp, ast.Compare,
+                                       ast.UnaryOp)):
+                v = self._bool(stmt.value, st)
+            if v is None:
+                st.env.pop(stmt.targets[0].id, None)
+                if stmt.targets[0].id == self.flag:
+                    st.env[self.flag] = True      # expr = Eval(...)
+            else:
+                st.env[stmt.targets[0].id] = v
+        return st
+
+    def _bool(self, e, st):
+        if isinstance(e, ast.UnaryOp) and isinstance(e.op, ast.Not):
+            v = self._bool(e.operand, st)
+            return None if v is None else not v
+        if isinstance(e, ast.BoolOp):
+            vs = [self._bool(v, st) for v in e.values]
+            if isinstance(e.op, ast.And):
+                if any(v is False for v in vs):
+                    return False
+                return True if all(v is True for v in vs) else None
+            if any(v is True for v in vs):
+                return True
+            return False if all(v is False for v in vs) else None
+        return self.truth(e, st)
+
+
+def rule_contradictory_attributes(model):
+    r = RuleResult('C07.R12', 'a tag that names its operand twice is '
+                   'rejected whatever the spelling: an unnamed value '
+                   'together with name=, an unnamed value together with '
+                   'expr=, name= together with expr=, and no operand at '
+                   'all never compile -- name_param reaches no return for '
+                   'those attribute combinations')
+    npf = model.func('DT_Util', 'name_param')
+    combos = [
+        (('plain', True, False, True), 'an unnamed name and name='),
+        (('plain', False, True, True), 'an unnamed name and expr='),
+        (('quoted', True, False, True), 'a "..." expression and name='),
+        (('quoted', False, True, True), 'a "..." expression and expr='),
+        ((None, True, True, True), 'name= and expr='),
+        ((None, False, False, True), 'no operand'),
+        ((None, False, False, False), 'no operand (tag without expr)'),
+        (('quoted', False, False, False),
+         'a "..." expression in a tag that has no expr'),
+    ]
+    for sc, what in combos:
+        dom = _NameParamDomain(npf, *sc)
+        outs = Interp(dom).run(npf.node, _NPS())
+        rets = [o for o in outs if o.kind in ('return', 'normal')]
+        nraise = sum(1 for o in outs if o.kind == 'raise')
+        r.instance(npf.where, what,
+                   f'{nraise} raising path(s), {len(rets)} returning')
+        if rets:
+            r.finding(npf.where, what, f'a tag written with {what} is '
+                      'compiled instead of rejected: one of the two '
+                      'operands is silently ignored', node=rets[0].node
+                      if rets[0].node is not None else npf.node, ctx=npf,
+                      path=rets[0].state.trace)
+        elif not nraise:
+            raise AnalysisError('C07.R12: name_param reaches no exit for '
+                                + what)
+    # control: the well-formed combinations do return
+    for sc, what in (((None, True, False, True), 'name= alone'),
+                     ((None, False, True, True), 'expr= alone'),
+                     (('plain', False, False, True), 'unnamed name'),
+                     (('quoted', False, False, True), '"..." alone')):
+        dom = _NameParamDomain(npf, *sc)
+        outs = Interp(dom).run(npf.node, _NPS())
+        ok = any(o.kind in ('return', 'normal') for o in outs)
+        r.control(f'control: {what} compiles', ok)
+        if not ok:
+            raise AnalysisError(f'C07.R12: {what} reaches no return in '
+                                'name_param (scenario evaluation lost)')
+    return r
+
+
 RULES = [rule_overrides, rule_siblings, rule_groups, rule_entity,
          rule_widths, rule_scanner_twins, rule_epfs_language,
          rule_args_blanks, rule_one_table, rule_epfs_lower,
-         rule_scanner_name_blind]
+         rule_scanner_name_blind, rule_contradictory_attributes]
 EXPLANATION = (
     'Override-set query on the template class hierarchy; comparison of the '
     'normalised decisions (returns, raises, tests) of the two parseTag '
